@@ -51,7 +51,7 @@ EXPECTED_PROBES = [
 ]
 
 
-REAL_PATTERNS = ["sorted", "sorted_prefix", "random_late_rare", "categorical"]
+REAL_PATTERNS = ["sorted", "sorted_prefix", "random_late_rare", "categorical", "multikey_highcard"]
 
 
 def classes(tier):
@@ -65,7 +65,7 @@ def class_weights(tier):
     vds = VD_QUICK if tier == "quick" else VD_THOROUGH
     n_small = len(vds) * len(FAMS)
     # real-scale runs cost seconds each: 16 of 5000 in quick, 0.75% in thorough
-    real_share = 0.0023 if tier == "quick" else 0.0075
+    real_share = 0.003 if tier == "quick" else 0.0075
     w_small = (1.0 - real_share) / n_small
     return [w_small] * n_small + [real_share / len(REAL_PATTERNS)] * len(REAL_PATTERNS)
 
@@ -402,9 +402,78 @@ def gen_real(scen: Choices, cls, cfg):
     return sc
 
 
+def run_multikey_highcard(sc, sched: Choices, cls, cfg):
+    """Two keys of ~100 000 distinct values each: the cartesian product of the labels
+    (1e10 cells) is beyond the library's `use_dict_limit`, so the combination of the per-key
+    codes goes through the hash-table tracker instead of the dense array -- a route chosen
+    by cardinality that no small input reaches.  Baseline: the same grouping expressed as one
+    composite integer key (k1 * W + k2), whole factorization."""
+    from groupby_lib.groupby.core import GroupBy
+
+    from . import seams
+
+    rec = {"violations": [], "probes": ["real_scale", "multikey_hash_tracker"], "faults": [], "interleavings": [], "ticks": 0, "nontrivial": False, "n_pools": 0, "scenario": sc}
+    rng = np.random.RandomState(sc["dseed"])
+    n = [300_000, 200_000, 400_000][sc["g"] % 3 if isinstance(sc["g"], int) else 0]
+    W = 100_000
+    k1 = rng.randint(0, W, size=n).astype(np.int64)
+    k2 = rng.randint(0, W, size=n).astype(np.int64)
+    vals = rng.randint(-50, 50, size=n).astype(np.float64)
+    seams.set_knobs(threshold=10**12, rows_per_thread=10**12)
+    ctx0 = executor.SimContext(sched=Choices(replay=[]), workers=1, cpu_count=4)
+    ctx = executor.SimContext(sched=sched, workers=sc["workers"], cpu_count=sc["cpu"])
+    events, results = [], []
+    for opname in sc["ops"][:2]:
+        site = {"property": PROP, "op": opname}
+        features = {"key_kind": "real_multikey_highcard", "mask": "none", "vdtype": "float64", "n": n, "null_keys": "none", "key_repr": "contiguous"}
+
+        def call(keys, c):
+            with executor.use_context(c):
+                gb = GroupBy(keys)
+                r = gb.size() if opname == "size" else getattr(gb, opname)(vals)
+            return r
+
+        try:
+            base = call(k1 * W + k2, ctx0)
+            got = call([k1, k2], ctx)
+        except Exception as e:  # noqa: BLE001
+            rec["violations"].append({"site": dict(site, check="strategy_vs_baseline", outcome="raises_vs_returns", exc=type(e).__name__), "features": features, "expected": "a result", "actual": compare.msg(e)})
+            continue
+        lab = np.asarray(base.index, dtype=np.int64)
+        exp_labels = np.stack([lab // W, lab % W], axis=1)
+        got_labels = np.stack([np.asarray(got.index.get_level_values(0), dtype=np.int64), np.asarray(got.index.get_level_values(1), dtype=np.int64)], axis=1)
+        bad = None
+        if len(base) != len(got):
+            bad = ("label_diff", f"{len(base)} groups", f"{len(got)} groups")
+        elif not np.array_equal(exp_labels, got_labels):
+            i = int(np.nonzero((exp_labels != got_labels).any(axis=1))[0][0])
+            bad = ("label_diff", f"label {i}: {exp_labels[i].tolist()}", f"{got_labels[i].tolist()}")
+        elif not np.array_equal(np.asarray(base, dtype=np.float64), np.asarray(got, dtype=np.float64), equal_nan=True):
+            i = int(np.nonzero(np.asarray(base, dtype=np.float64) != np.asarray(got, dtype=np.float64))[0][0])
+            bad = ("value_diff", f"group {exp_labels[i].tolist()}: {float(np.asarray(base)[i])}", f"{float(np.asarray(got)[i])}")
+        if bad:
+            rec["violations"].append({"site": dict(site, check="strategy_vs_baseline", outcome=bad[0]), "features": features, "expected": bad[1], "actual": bad[2]})
+        results.append((opname, len(got), float(np.nansum(np.asarray(got, dtype=np.float64)))))
+    rec["ticks"] = ctx.ticks
+    rec["n_pools"] = ctx.n_pools
+    rec["interleavings"] = ctx.interleavings()
+    for k_, v_ in ctx.stats.items():
+        if v_:
+            rec["probes"].append(k_)
+    rec["nontrivial"] = ctx.max_tasks >= 2
+    rec["digest"] = gen.digest((cls, sc))
+    rec["events"] = ctx.event_digest()
+    rec["result"] = hashlib.blake2b(repr(results).encode(), digest_size=8).hexdigest()
+    if cfg.get("want_sample"):
+        rec["sample"] = {"real_scale": sc, "rows": n, "distinct_per_key": W, "outcomes": results}
+    return rec
+
+
 def run_real(sc, sched: Choices, cls, cfg):
     from groupby_lib.groupby.core import GroupBy
 
+    if sc["pattern"] == "multikey_highcard":
+        return run_multikey_highcard(sc, sched, cls, cfg)
     fault = sc["fault"]
     rec = {"violations": [], "probes": ["real_scale"], "faults": [], "interleavings": [], "ticks": 0, "nontrivial": False, "n_pools": 0}
     keys, vals = _real_dataset(sc)
